@@ -418,3 +418,47 @@ def r01e(ctx):
                         else:
                             ctx.bad(cid, c.module.loc(p.stmt), f"`return {unparse(v)}` skips the inner {K.name} but never reads its parameter `{q}`: the collapsed expression ignores what the inner {K.name} was asked to do with `{q}`")
     ctx.floor("rules that skip a node", n, 3)
+
+
+# ---------------------------------------------------------------------------------------------
+# R01g
+# ---------------------------------------------------------------------------------------------
+
+# parent classes whose only expression operand that can be `self` is the first one
+UNARY_IN_FRAME = {
+    "Projection", "Index", "Repartition", "Head", "Tail", "Filter", "Len", "Lengths",
+    "Unique", "DropDuplicates", "Sum", "Prod", "Max", "Any", "All", "Min", "Size", "NBytes", "Mean", "Count", "Mode",
+    "NLargest", "NSmallest", "ValueCounts", "MemoryUsage",
+}
+
+
+@rule(
+    "R01g",
+    ["C01", "C03", "C04"],
+    """PARENT REBUILD POSITION: `type(parent)(new, *parent.operands[1:])` puts the rewritten expression in the parent's FIRST
+    operand slot. That is only the slot `self` came from when the parent is known (isinstance guard) to be of a class
+    whose first operand is its single input frame (Projection, Index, Repartition, Head, Tail, the frame reductions
+    ...). Under an unknown parent - a merge or binary operation of which self is the RIGHT input - the rewrite replaces
+    the other input; such rules must use parent.substitute(self, new).""",
+)
+def r01g(ctx):
+    model = ctx.model
+    n = 0
+    for mname in ("_simplify_up", "_tune_up"):
+        for c, m in own_methods(model, mname):
+            fn = m.node
+            if len(fn.args.args) < 2:
+                continue
+            par = fn.args.args[1].arg
+            for st in (x for x in ast.walk(fn) if isinstance(x, ast.Starred) and ast.unparse(x.value) == f"{par}.operands[1:]"):
+                n += 1
+                p = flow.point_of(fn, st)
+                pcs = sorted({x for names, pol in fact_isinstance(p, par) if pol for x in names})
+                cid = f"{qual(c, fn)}:parent-rebuild@{_call_ord(fn, st._parent) if isinstance(st._parent, ast.Call) else st.lineno}"
+                if pcs and all(pc.split(".")[-1] in UNARY_IN_FRAME for pc in pcs):
+                    ctx.ok(cid, c.module.loc(st), f"parent is {pcs}")
+                elif not pcs:
+                    ctx.bad(cid, c.module.loc(st), f"`type({par})(..., *{par}.operands[1:])` without any isinstance test on `{par}`: when this expression is the right input of a merge / binary operation the rewrite overwrites the parent's left input (use {par}.substitute(self, new))")
+                else:
+                    ctx.bad(cid, c.module.loc(st), f"the parent is rebuilt with *{par}.operands[1:] under isinstance({par}, {pcs}); {[pc for pc in pcs if pc.split('.')[-1] not in UNARY_IN_FRAME]} are not confirmed single-input classes")
+    ctx.floor("parent rebuilds", n, 15)
